@@ -87,10 +87,13 @@ class BaseFiles(Generic[Interface]):
         if if_none_match == "*":
             return True
 
-        if if_none_match.startswith("W/"):
-            if_none_match = if_none_match[2:]
-
-        return any(etag == i.strip().strip('"') for i in if_none_match.split(","))
+        for i in if_none_match.split(","):
+            i = i.strip()
+            if i.startswith("W/"):
+                i = i[2:]
+            if etag == i.strip('"'):
+                return True
+        return False
 
     def if_modified_since(self, last_modified: float, if_modified_since: str) -> bool:
         try:
